@@ -148,9 +148,10 @@ M("C10", "c10_m_block", ["Block::deserialize_from_net"], "every buffer of length
 # ============================================================================== C09
 PROPERTY_ASSUMPTIONS["C09"] = [
     "engine M over the real encoders/decoders; slices and Vec<u8> are (length, SMT array) pairs, `concat` is array concatenation, to/from_be_bytes are bit-vector extract/concat",
-    "claimed formats: Slip (all fields, all 10 types) and the Transaction count/size header agreement between encoder, validator and decoder; blocks, messages, snapshots and payload contents are outside this revision's claim",
+    "claimed formats: Slip (all fields, all 10 types), Transaction predicted size = encoded size, and the Transaction count/size header agreement between encoder, validator and decoder; blocks, messages, snapshots and payload contents are outside this revision's claim",
 ]
 M("C09", "c09_m_slip_roundtrip", ["Slip::serialize_for_net", "Slip::deserialize_from_net"], "every slip: 33-byte key, amount, block id, tx ordinal, slip index, all 10 slip types symbolic; one query per wire field")
+M("C09", "c09_m_tx_size_prediction", ["Transaction::get_serialized_size", "Transaction::serialize_for_net_with_hop", "Slip::serialize_for_net", "Hop::serialize_for_net"], "0..=2 inputs x 0..=1 outputs x 0..=2 hops (thorough 2/2/3), payload length symbolic below 2^32, all field values symbolic", covers=10)
 M("C09", "c09_m_tx_counts_agree", ["Transaction::deserialize_from_net (header section)", "Transaction::serialize_for_net_with_hop (accepted counts: <=255 inputs/outputs)"],
   "count fields symbolic with inputs, outputs <= 255, message <= 2^20, hops <= 64, buffer length exactly the encoded size; element loops cut at the first iteration")
 
@@ -201,6 +202,7 @@ PROPERTY_ASSUMPTIONS["C19"] = [
 ]
 M("C19", "c19_add_delete_slip", ["Wallet::add_slip", "Wallet::delete_slip"], "wallets with 0..=2 slips in every layout; the slip added / deleted fully symbolic (possibly already present / absent)", covers=10)
 M("C19", "c19_find_slips_for_staking", ["Wallet::find_slips_for_staking", "WalletSlip::is_staking_slip_unlocked", "WalletSlip::to_slip"], "wallets with 1..=2 slips (thorough 3) in every unspent/staking layout; staking amount, unlock heights symbolic; Ok and Err paths", covers=5)
+M("C19", "c19_remove_old_slips", ["Wallet::remove_old_slips", "Wallet::delete_slip"], "wallets with 1..=2 slips in every layout; bound and creation heights symbolic", covers=4)
 M("C19", "c19_generate_slips", ["Wallet::generate_slips"], "wallets with 1..=2 unspent slips (thorough 3); requested amount, latest block id, genesis period symbolic; conservation of inputs/change in u128", covers=2)
 
 # ============================================================================== C17
